@@ -4,7 +4,13 @@ scratch copy of /repo's CURRENT tree) and record the outcome under "recheck" in 
 import json, os, subprocess, sys, glob, time, shutil
 V = "/verif"
 CHECKS = {"C01": ["C01", "C13"], "C13": ["C13", "C01"], "C16": ["C16", "C20"]}
-ids = sys.argv[1:] or sorted(os.path.basename(os.path.dirname(p)) for p in glob.glob(V + "/seeded/*/meta.json"))
+args = sys.argv[1:]
+shard = None
+if args and args[0].startswith("--shard="):          # --shard=i/n : every n-th change starting at i
+    i, n = args[0][8:].split("/"); shard = (int(i), int(n)); args = args[1:]
+ids = args or sorted(os.path.basename(os.path.dirname(p)) for p in glob.glob(V + "/seeded/*/meta.json"))
+if shard:
+    ids = [x for k, x in enumerate(ids) if k % shard[1] == shard[0]]
 for sid in ids:
     d = os.path.join(V, "seeded", sid)
     meta = json.load(open(os.path.join(d, "meta.json")))
@@ -14,7 +20,12 @@ for sid in ids:
     r = subprocess.run("patch -p1 -s < %s/patch.diff" % d, shell=True, cwd=scratch, capture_output=True, text=True)
     out = {"at": time.strftime("%Y-%m-%d %H:%M:%S"), "patch_applies_to_current_tree": r.returncode == 0, "checks": {}}
     if r.returncode == 0:
-        for c in CHECKS.get(prop, [prop]):
+        # the property's own check(s) and every check that was run when the change was confirmed
+        cs = list(CHECKS.get(prop, [prop]))
+        for c in meta.get("confirmation_by_orchestrator", {}).get("checks", {}):
+            if c not in cs and c.startswith("C") and c[1:].isdigit():
+                cs.append(c)
+        for c in cs:
             p = subprocess.run("./check %s --tier quick" % c, shell=True, cwd=V, env=dict(os.environ, VERIF_REPO=scratch),
                                capture_output=True, text=True, timeout=3600)
             lines = [l for l in p.stdout.split("\n") if l.startswith(("OK", "VIOLATION", "KNOWN-FINDING", "  ("))]
